@@ -31,6 +31,20 @@ func init() {
 }
 
 func runC07(c *Ctx) {
+	// the source address reaches handle() without its zone, so that `::%if` is recognised as unspecified
+	if l := c.needMethod("R-C07-1", "internal/corerad", "listener", "Listen"); l != nil {
+		restore := c.opaque(c.P.Method("internal/corerad", "listener", "receiveRetry"))
+		checkListenDelivery(c, "R-C07-1", l, c.pathsO("R-C07-1", l, an.PathOpts{EmitCut: true}))
+		restore()
+	}
+	if cb := listenerCallback(c, "R-C07-1", "Advertiser", "advertise"); cb != nil {
+		for _, ci := range an.CallsIn(cb) {
+			if an.CallIs(ci.Common(), PkgCorerad, "Advertiser", "handle") {
+				m, h := c.XO.Of(ci.Common().Args[1]), c.XO.Of(ci.Common().Args[2])
+				c.R.Check(m.IsField("Message") && h.IsField("Host") && h.Args[0].Op == an.OpParam, "R-C07-1", c.fname(cb)+":handle-args", c.fname(cb), c.pos(ci.Pos()), fmt.Sprintf("handle(%s, %s)", m, h), "handle(msg.Message, msg.Host)", "handler sees another source address than the listener delivered")
+			}
+		}
+	}
 	c07Handle(c)
 	c07Callback(c)
 	c07Schedule(c)
